@@ -253,7 +253,8 @@ sexp sexp_arithmetic_shift (sexp ctx, sexp self, sexp_sint_t n, sexp i, sexp cou
   if (c == 0) return i;
   if (sexp_fixnump(i)) {
     if (c < 0) {
-      res = sexp_make_fixnum(c > -sizeof(sexp_sint_t)*CHAR_BIT ? sexp_unbox_fixnum(i) >> -c : 0);
+      res = sexp_make_fixnum(c > -sizeof(sexp_sint_t)*CHAR_BIT ? sexp_unbox_fixnum(i) >> -c
+                             : sexp_unbox_fixnum(i) < 0 ? -1 : 0);
     } else {
 #if SEXP_USE_BIGNUMS
       if ((log2i(sexp_unbox_fixnum(i)) + c + 1)
